@@ -24,18 +24,14 @@ PROP = 'C08'
 
 
 def _wrap(raw):
-    b = _autoref.BDD.__new__(_autoref.BDD)
-    b._bdd = raw
-    b.vars = raw.vars
-    return b
+    return S.autoref_around(raw)
 
 
 def _adopt(bdd, node):
-    """A Function object for a reference that the copied counts already include."""
-    f = _autoref.Function.__new__(_autoref.Function)
-    f.bdd = bdd
-    f.manager = bdd._bdd
-    f.node = node
+    """A Function object (built by its real constructor) for a reference that the copied
+    counts already include: the constructor's own reference is given back at once."""
+    f = _autoref.Function(node, bdd)
+    bdd._bdd.decref(node)
     return f
 
 
@@ -321,6 +317,9 @@ class AutorefMachine(Machine):
             env.settle()
             self._invariant(st)
 
+    def step_invariant(self, st):
+        self._invariant(st, shutdown=False)
+
     def _invariant(self, st, shutdown=True):
         U = self.U
         ext = {}
@@ -332,6 +331,13 @@ class AutorefMachine(Machine):
             if den(f) != mask:
                 raise Violation('a live Function changed denotation',
                                 got=U.fmt(den(f)), want=U.fmt(mask))
+            # what the handle itself reports must follow the manager (no stale per-handle state)
+            if set(f.support) != U.support(mask):
+                raise Violation('Function.support of a live Function is wrong')
+            if len(f) != len(O.reachable(st.m, [f.node])):
+                raise Violation('len() of a live Function is not its number of reachable nodes')
+            if f.var is not None and st.m.level_of_var(f.var) != f.level:
+                raise Violation('var/level of a live Function disagree with the manager')
         if not shutdown:
             return
         # drop everything, in several orders, on copies: shutdown check must pass
